@@ -35,8 +35,11 @@ THEOREMS = [
     "BinStore.setParent_rej_id", "BinStore.setChildren_rej_id", "BinStore.step_rej_id",
     "BinStore.setChildren_rej_id_any", "BinStore.step_rej_id_any", "BinStore.assertions_off_same",
     "BinStore.anc_complete", "BinStore.acyc_reparent",
+    # bridge two-slot store -> binary trees (BTree of C04 / C12): lean/BigtreeProofs/Properties/BinBridge.lean
+    "BinBridge.btreeOf_fuel", "BinBridge.btreeOf_unfold", "BinBridge.btreeOf_ids", "BinBridge.btreeOf_slots",
+    "BinBridge.inorder_transfer", "BinBridge.is_leaf_transfer",
 ]
-PROOF_IMPORTS = ["BigtreeProofs.Properties.C11"]
+PROOF_IMPORTS = ["BigtreeProofs.Properties.C11", "BigtreeProofs.Properties.BinBridge"]
 HANDLER = "C11"
 FAULTS = ("none", "pre", "post")
 
@@ -886,7 +889,14 @@ LEVEL_TEXT = ("proof: Lean 4 kernel-checked invariant BWF (two raw slots, each n
               "nobody else, acyclic, ids in range) over every history of parent/children/left/right/del/sort on the "
               "statement-level model of binarynode.py, for every argument (None, non-node, self, ancestor, repeated member, "
               "any list length) and every hook fault; effect theorems slot_move, parent_first_empty, parent_full_rej, "
-              "delChildren_empties_both, sort_effect; rejected calls leave the store unchanged")
+              "delChildren_empties_both, sort_effect; rejected calls leave the store unchanged. Bridge theorems BinBridge.* connect "
+              "this store with the binary trees (BTree) on which in-order traversal (C04) and the BinaryNode queries (C12) are "
+              "specified: the read-back btreeOf (follow .left/.right recursively, empty slot = nil) of a well-formed store is "
+              "fuel-independent (btreeOf_fuel, btreeOf_unfold), lists exactly a node and its descendants once each "
+              "(btreeOf_ids), its two subtrees are the read-backs of the store's left/right slots, which agree with the parent "
+              "pointers (btreeOf_slots); hence in every state reachable by any history of BinaryNode calls the in-order "
+              "iterator lists every descendant-or-self once, each subtree as one block left subtree - node - right subtree "
+              "(inorder_transfer), and is_leaf holds exactly of the nodes with two empty slots (is_leaf_transfer)")
 LEVEL_NOTE = ("the model is hand-written and tied to /repo by the correspondence check: every transition from every binary "
               "forest reachable on <=3 (quick) / <=4 (thorough) nodes, plus random histories on 4-8 nodes, compared after "
               "every call (outcome, parent, len(children), left, right of every node)")
